@@ -19,12 +19,14 @@ def Img.zero : Img := fun _ => 0
 
 /-- Storage-level events of one query, in program order.
 `begin`/`commit` = `Storage::transaction()` / `Storage::commit(id)`;
-`write k v` = a successful `StorageData::write/resize`; `fail` = a call that returns `Err`
+`write k v` = a successful `StorageData::write/resize`; `nop` = a zero-length `write` (not logged, no
+effect: `FileStorage::write` returns early); `fail` = a call that returns `Err`
 (the `?` after it unwinds to the `transaction_mut` boundary). -/
 inductive Ev where
   | begin
   | commit
   | write (k v : Nat)
+  | nop
   | fail
   deriving DecidableEq, Repr
 
@@ -64,6 +66,7 @@ def step (e : Ev) (s : St) : St :=
   | .begin => s.begin
   | .commit => s.commit
   | .write k v => s.write k v
+  | .nop => s
   | .fail => s
 
 /-- Result of running a piece of code: crash points visited (state before every call, in order),
@@ -92,6 +95,7 @@ def wellNested : Nat → List Ev → Bool
   | 0, .commit :: _ => false
   | r + 1, .commit :: es => wellNested r es
   | r, .write _ _ :: es => wellNested r es
+  | r, .nop :: es => wellNested r es
   | r, .fail :: es => wellNested r es
 
 /-- `Storage::commit_outermost(id)` (proposed fix): close every transaction nested in `id`
